@@ -73,6 +73,7 @@ type c17HTTP struct {
 	caseOps  []string
 	// ranges whose last fetch failed with an HTTP error status on a mode the pinned tree mishandles
 	polluted bool
+	shared   []byte
 }
 
 func c17ShowBytes(b []byte) string {
@@ -170,7 +171,12 @@ func (h *c17HTTP) exec(line string) string {
 			h.rt.failNext, _ = strconv.Atoi(mode[5:])
 		}
 		h.rt.mu.Unlock()
-		p := make([]byte, ln)
+		// ONE buffer for every read of the run (as bufio / section readers do): a cache that kept a reference to the
+		// caller's buffer instead of its own copy would serve the later content for the earlier range
+		if cap(h.shared) < ln {
+			h.shared = make([]byte, ln, 2*ln+64)
+		}
+		p := h.shared[:ln]
 		for i := range p {
 			p[i] = 0xCC
 		}
